@@ -237,7 +237,29 @@ theorem step_expr (hS : SigClosed S) (hP : okProg S P = true) {n : Nat} (ih : So
       have hvs := ih.list hok herr.1 hρ hK h1
       simp only [getTy, herr.2, substTy]
       exact .tuple hvs
-  | array t items => simp [okE] at hok
+  | array t items =>
+    simp only [okE] at hok
+    simp only [errs, List.append_eq_nil_iff] at herr
+    obtain ⟨hitems, hty⟩ := herr
+    rw [eval_array] at hev
+    cases h1 : evalList n P ρ w items with
+    | fail f w1 => rw [h1] at hev; simp at hev
+    | ok vs w1 =>
+      rw [h1] at hev; simp only [Res.andThen_ok] at hev
+      obtain ⟨rfl, _⟩ := res_ok_inj hev
+      have hvs := ih.list hok hitems hρ hK h1
+      cases t with
+      | array nn e =>
+        simp only [List.append_eq_nil_iff, check_nil, beq_iff_eq] at hty
+        obtain ⟨hn, hall⟩ := hty
+        simp only [getTy, substTy]
+        refine .array (VTs_all hvs ?_) ?_
+        · intro u hu
+          rw [substTys_map] at hu
+          obtain ⟨u0, hu0, rfl⟩ := List.mem_map.1 hu
+          rw [allTyEq_all hall u0 hu0]
+        · rw [VTs_length hvs, substTys_length, getTys_length]; exact hn.symm
+      | _ => simp at hty
   | closure t ps body =>
     simp only [okE] at hok
     simp only [errs, List.append_eq_nil_iff, checkEq_nil] at herr
@@ -459,7 +481,7 @@ theorem step_expr (hS : SigClosed S) (hP : okProg S P = true) {n : Nat} (ih : So
     simp only [errs, List.append_eq_nil_iff] at herr
     rw [eval_call] at hev
     simp only [getTy]
-    rcases hf with hdirect | ⟨hfok, hfty⟩
+    rcases hf with (hdirect | hpoly) | ⟨hfok, hfty⟩
     · -- an admitted builtin
       cases f with
       | var fn tf =>
@@ -518,6 +540,29 @@ theorem step_expr (hS : SigClosed S) (hP : okProg S P = true) {n : Nat} (ih : So
               rw [hclosed.2]
               exact builtin_sound hbt hvs hev
       | _ => simp at hdirect
+    · -- an array / vector builtin, judged on the shape of the argument and result types
+      cases f with
+      | var fn tf =>
+        simp only [Bool.and_eq_true, Option.isNone_iff_eq_none] at hpoly
+        obtain ⟨⟨hnone, hg⟩, hp⟩ := hpoly
+        cases n with
+        | zero => rw [eval_zero] at hev; simp at hev
+        | succ m =>
+          rw [eval_var] at hev
+          have hlk : lookupEnv ρ fn = none := by
+            have := ET_lookup hρ fn
+            simpa [hnone] using this
+          rw [hlk] at hev
+          simp only [Option.getD_none, Res.andThen_ok] at hev
+          cases h2 : evalList (m + 1) P ρ w args with
+          | fail f w2 => rw [h2] at hev; simp at hev
+          | ok vs w2 =>
+            rw [h2] at hev; simp only [Res.andThen_ok] at hev
+            have hvs := ih.list hargsok herr.1.2 hρ hK h2
+            rw [apply_fn, hg] at hev
+            simp only [] at hev
+            exact poly_sound hp hvs hev
+      | _ => simp at hpoly
     · -- any fragment expression of function type
       have hfty := tyEq hfty
       cases h1 : eval n P ρ w f with
